@@ -1,5 +1,5 @@
-import SciVerif.Drive.Util
+import SciVerif.Drive.C06
 open Lean SciVerif.Drive
 
-/-- C08 model driver: not built yet. -/
-def main : IO Unit := serve (fun _ => throw "C08: no model yet")
+/-- C08 model driver: magnitudes (`k = "mag"`) and quantities / conversions (`k = "qty"`). -/
+def main : IO Unit := serve SciVerif.C06.Drive.handle
